@@ -376,6 +376,14 @@ func (s *S) ready() []int {
 // settle waits until every task flagged blocked is either really blocked
 // (wait status of its goroutine) or has parked itself.
 func (s *S) settle() {
+	// scheduler code run by the caller itself counts once in inSched when the
+	// caller is a task (never for the monitor)
+	self := int32(0)
+	s.mu.Lock()
+	if s.byG[getg()] != nil {
+		self = 1
+	}
+	s.mu.Unlock()
 	for {
 		s.mu.Lock()
 		var pend []*task
@@ -389,8 +397,14 @@ func (s *S) settle() {
 		if len(pend) == 0 || !live {
 			return
 		}
+		if s.inSched.Load() != self {
+			// another task is inside scheduler code (a released task registering
+			// itself): its wait status may be the scheduler's own locking
+			time.Sleep(20 * time.Microsecond)
+			continue
+		}
 		st := goroutineStatus()
-		stable := true
+		stable := s.inSched.Load() == self
 		for _, t := range pend {
 			s.mu.Lock()
 			flagged := t.blocked
@@ -712,7 +726,11 @@ func goid() uint64 {
 	return id
 }
 
-// goroutineStatus returns the wait status of every goroutine.
+// goroutineStatus returns the wait status of every goroutine. The generic
+// status "semacquire" is shared by sync.WaitGroup.Wait and by the runtime's own
+// semaphores (starting a GC cycle, stopping the world for a stack dump): it is
+// reported as "semacquire" only when a sync frame is on top of the stack, and
+// as "runtime semacquire" otherwise.
 func goroutineStatus() map[uint64]string {
 	stackMu.Lock()
 	defer stackMu.Unlock()
@@ -736,6 +754,10 @@ func goroutineStatus() map[uint64]string {
 		if j := strings.IndexByte(line, '\n'); j >= 0 {
 			line = line[:j]
 		}
+		body := txt[i+len(line):]
+		if k := strings.Index(body, "\n\n"); k >= 0 {
+			body = body[:k]
+		}
 		txt = txt[i+len(line):]
 		// goroutine N [status, ...]:
 		rest := line[len("goroutine "):]
@@ -754,6 +776,23 @@ func goroutineStatus() map[uint64]string {
 		st := rest[lb+1 : rb]
 		if c := strings.IndexByte(st, ','); c >= 0 {
 			st = st[:c]
+		}
+		if st == "semacquire" {
+			// first frame that is not the runtime's own
+			syncTop := false
+			for _, fl := range strings.Split(body, "\n") {
+				if fl == "" || fl[0] == '\t' {
+					continue
+				}
+				if strings.HasPrefix(fl, "runtime.") {
+					continue
+				}
+				syncTop = strings.HasPrefix(fl, "sync.")
+				break
+			}
+			if !syncTop {
+				st = "runtime semacquire"
+			}
 		}
 		out[id] = st
 	}
